@@ -324,7 +324,15 @@ def St.globalOfType (st : St) (n : String) (k : SymKind) : Option Sym :=
 
 def St.getRoutine (st : St) (n : String) : Option Sym := st.globalOfType n .routine
 def St.hasRoutine (st : St) (n : String) : Bool := (st.getRoutine n).isSome
-def St.getMacro (st : St) (n : String) : Option Sym := st.globalOfType n .macro
+/-- `get_macro`: a parameter or local variable of the routine being compiled hides a macro of
+the same name -/
+def St.getMacro (st : St) (n : String) : Option Sym :=
+  if (st.locals.get n).isSome then none else st.globalOfType n .macro
+/-- `Context.routine_exists`: the name was given to a routine (built-in or the script's) at some
+point of this compile, whatever has taken the name since (`globals` keeps every entry, newest
+first) -/
+def St.routineExists (st : St) (n : String) : Bool :=
+  st.globals.any fun e => e.1 == n && e.2.kind == .routine
 
 /-- `add_variable(name)` -/
 def addVariable (n : String) : M Unit := modifySt fun st =>
@@ -344,6 +352,12 @@ def addParam (n p : String) : M Unit := modifySt fun st =>
   match st.getRoutine n with
   | some s => { st with globals := (n, { s with params := s.params ++ [p] }) :: st.globals }
   | none => st
+
+/-- `Parser.assignable`: a macro is a constant; no assignment and no loop makes a variable of its
+name -/
+def assignable (n : String) : M Unit := do
+  if (← getSt).hasSymbolTyped n [.macro] then
+    triggerError ("Attempt to assign to constant \"" ++ n ++ "\"")
 
 /-- `_resume_loops` -/
 def resumeLoops (l : List (Option (List Nat))) : List (Option (List Nat)) :=
@@ -964,7 +978,7 @@ def assignment : M Unit := do
   let st ← getSt
   if st.cur.ty != .name then tokenError "Expected name for assignment, got \"" "\""
   let dest := st.cur.str
-  if st.hasSymbolTyped dest [.macro] then tokenError "Attempt to assign to constant \"" "\""
+  assignable dest
   skipToken
   rvalueTop (.to (.var dest))
   addVariable dest
@@ -1217,6 +1231,7 @@ def preLoopAs : M String := do
   skipToken
   let st ← getSt
   if st.cur.ty != .name then tokenError "Expected name for lights, got \"" "\""
+  assignable st.cur.str
   addVariable st.cur.str
   nextToken
   return st.cur.str
@@ -1282,6 +1297,7 @@ def preLoopWith (info : LoopInfo) : M LoopInfo := do
   let st ← getSt
   if st.cur.ty != .name then tokenError "Not a variable name: \"" "\""
   let indexVar := st.cur.str
+  assignable indexVar
   nextToken
   let info := { info with indexVar := some indexVar }
   match (← getSt).cur.ty with
@@ -1406,7 +1422,8 @@ def routinePart (name : String) (withParams : Bool) (body : M Unit) : M Unit := 
   andFinally body (finishRoutine name)
 
 /-- `_already_defined`: the name is a routine (built-in or the script's) or a macro -/
-def St.alreadyDefined (st : St) (n : String) : Bool := st.hasRoutine n || (st.getMacro n).isSome
+def St.alreadyDefined (st : St) (n : String) : Bool :=
+  st.routineExists n || (st.getMacro n).isSome
 
 /-- `_definition` after the name -/
 def definitionRest (name : String) (body : M Unit) : M Unit := do
